@@ -142,7 +142,7 @@ Json Program::to_json() const {
     const Slot& s = slots[i];
     Json o = Json::obj();
     o.set("id", Json::num(i)).set("type", Json::str(slot_type_names[s.type])).set("mod", Json::inum(s.mod)).set("n", Json::num(s.n)).set("size", Json::num(s.size)).set("sl", Json::num(s.sl));
-    o.set("place", Json::inum(s.place)).set("off8", Json::inum(s.off8)).set("fill", Json::inum(s.fill)).set("owner", Json::inum(s.owner));
+    o.set("place", Json::inum(s.place)).set("off8", Json::inum(s.off8)).set("fill", Json::inum(s.fill)).set("owner", Json::inum(s.owner)).set("liballoc", Json::inum(s.liballoc));
     if (s.input) o.set("input", Json::inum(s.input)).set("pattern", Json::inum(s.pattern)).set("bits", Json::inum(s.bits)).set("dseed", Json::num(s.dseed)).set("nnz", Json::inum(s.nnz));
     ss.push(o);
   }
@@ -206,6 +206,7 @@ bool Program::from_json(const Json& j, std::string& err) {
     x.off8 = (int)s.i("off8");
     x.fill = (int)s.i("fill");
     x.owner = (int)s.i("owner", -1);
+    x.liballoc = (int)s.i("liballoc");
     x.input = (int)s.i("input");
     x.pattern = (int)s.i("pattern");
     x.bits = (int)s.i("bits");
